@@ -2,7 +2,7 @@
    Gen/RoutesTable.v is regenerated from the live application object of /repo on every run:
    one row per (URL rule, HTTP method), with the guards read from the decorator closures, a
    conservative state-changing bit and the role the documentation assigns to that handler. *)
-From Verif Require Import Base.Tactics Base.ZList Model.AuthModel Proofs.AuthProofs Gen.RoutesTable Model.UserModel Proofs.UserProofs.
+From Verif Require Import Base.Tactics Base.ZList Model.AuthModel Proofs.AuthProofs Gen.RoutesTable Model.UserModel Proofs.UserProofs Model.UsersModel Proofs.UsersProofs.
 
 (* no forgotten route: for EVERY row of the generated table and EVERY role, a state-changing
    method whose guards let the role through is one the role is entitled to (finite: the bound is
@@ -104,3 +104,21 @@ Example C15_user_example :
   after u {| q_admin := false; q_caller := 7; q_target := 8; q_name := 9; q_must := true; q_email := 5; q_pw := Some 4;
              q_confirm := 4; q_groups := 7 |} = u.
 Proof. vm_compute. split; reflexivity. Qed.
+
+(* the user table as a whole: whatever sequence of additions (PUT /api/users) and edits (POST /api/users/<pk>, by an
+   administrator or by the account itself) is applied, primary keys, user names and email addresses stay unique - the
+   taken-name / taken-address checks of the handlers are what keeps the database's UNIQUE constraints from ever firing *)
+Theorem C15_users_unique :
+  forall ops t, UInv t -> UInv (fold_left ustep ops t).
+Proof. exact users_unique. Qed.
+Print Assumptions C15_users_unique.
+
+Example C15_users_example :
+  let t0 := [{| a_pk := 1; a_rec := {| u_name := 1; u_must := false; u_email := 1; u_pw := 1; u_groups := 2 |} |}] in
+  (* a second account with the same name is refused; with a fresh name it is added; renaming it to the taken name is refused *)
+  ustep t0 (UAdd 2 1 2 5 5 2 false) = t0 /\
+  length (ustep t0 (UAdd 2 2 2 5 5 2 false)) = 2%nat /\
+  let t1 := ustep t0 (UAdd 2 2 2 5 5 2 false) in
+  ustep t1 (UEdit {| q_admin := true; q_caller := 9; q_target := 2; q_name := 1; q_must := false; q_email := 2; q_pw := None;
+                     q_confirm := 0; q_groups := 2 |}) = t1.
+Proof. vm_compute. repeat split; reflexivity. Qed.
